@@ -58,11 +58,12 @@ class PyRaise(Exception):
 class Opaque(SVal):
     """A value the engine does not model (formatted text etc.).  May flow anywhere except into a
     branch condition or an obligation."""
-    __slots__ = ("tag", "pytype")
+    __slots__ = ("tag", "pytype", "src")
 
-    def __init__(self, tag="?", pytype=None):
+    def __init__(self, tag="?", pytype=None, src=None):
         self.tag = tag
         self.pytype = pytype
+        self.src = src            # what the value was derived from (e.g. the bytes a text was decoded from)
 
     def __repr__(self):
         return "Opaque(%s)" % self.tag
@@ -169,6 +170,62 @@ class HEnum(object):
         self.base = base
         self.p0 = base.pos
         self.start = start
+
+
+class PyLong(SVal):
+    """an int value carrying the Python-2 'long' tag (xdis.cross_types.LongTypeForPython3): arithmetic on it
+    gives plain ints"""
+    __slots__ = ("v",)
+
+    def __init__(self, v):
+        self.v = v
+
+
+class STupleSeq(SVal):
+    """tuple of symbolic length whose elements are integer handles of abstract objects (z3 Seq Int)"""
+    __slots__ = ("seq",)
+
+    def __init__(self, seq=None):
+        self.seq = seq if seq is not None else sym.ZSeq()
+
+    @staticmethod
+    def of(v):
+        if isinstance(v, STupleSeq):
+            return v
+        if isinstance(v, tuple):
+            return STupleSeq(sym.ZSeq.of([_handle(x) for x in v]))
+        raise Unsupported("not a tuple of object handles: %r" % (v,))
+
+    def concat(self, o):
+        return STupleSeq(self.seq + o.seq)
+
+
+def _handle(x):
+    if isinstance(x, (SInt, int)) and not isinstance(x, bool):
+        return x
+    raise Unsupported("tuple element is not an abstract object handle")
+
+
+class HRefTable(object):
+    """marshal reference table / interned-string table: an unknown prefix of n0 entries, then the entries appended
+    during the call (each remembered with the index it was stored at), interleaved with `extra` entries appended by
+    callees that are used through their contracts"""
+    def __init__(self, name, n0):
+        self.name = name
+        self.n0 = n0            # z3 Int: length at entry
+        self.tail = []          # [index expr, value]
+        self.extra = z3.IntVal(0)
+
+    @property
+    def length(self):
+        return SInt(z3.simplify(self.n0 + len(self.tail) + self.extra))
+
+    def slot_of(self, idx):
+        ie = z3.simplify(_ie(idx))
+        for k, (pos, _) in enumerate(self.tail):
+            if z3.is_true(z3.simplify(pos == ie)):
+                return k
+        return None
 
 
 class HFile(object):
@@ -585,6 +642,8 @@ class Engine(object):
             return int(v)
         if isinstance(v, (int, SInt)):
             return v
+        if isinstance(v, PyLong):
+            return self.as_int(v.v, node)
         if isinstance(v, SBool):
             return SInt(_ie(v))
         if isinstance(v, SOpt):
@@ -660,6 +719,20 @@ class Engine(object):
     def binop(self, op, a, b, node=None):
         if isinstance(a, Opaque) or isinstance(b, Opaque):
             return Opaque("binop")
+        if isinstance(a, PyLong):
+            a = a.v
+        if isinstance(b, PyLong):
+            b = b.v
+        if isinstance(a, STupleSeq) or isinstance(b, STupleSeq):
+            if isinstance(op, ast.Add):
+                return STupleSeq.of(a).concat(STupleSeq.of(b))
+            raise Unsupported("operator on a tuple of symbolic length")
+        if isinstance(a, SEnum) and not is_sym(b) and not all(isinstance(t, (int, bool)) for t in a.table):
+            f = _NATIVE_BINOP[type(op)]
+            return a.map(lambda t: _safe2(f, t, b)).collapse()
+        if isinstance(b, SEnum) and not is_sym(a) and not all(isinstance(t, (int, bool)) for t in b.table):
+            f = _NATIVE_BINOP[type(op)]
+            return b.map(lambda t: _safe2(f, a, t)).collapse()
         if not is_sym(a) and not is_sym(b) and not isinstance(a, (HList, HSymList, HSetList)) and not isinstance(b, (HList, HSymList, HSetList)):
             try:
                 return _NATIVE_BINOP[type(op)](a, b)
@@ -936,6 +1009,15 @@ class Engine(object):
                 return self.contains(items, x, node)
             raise Unsupported("membership in a sequence of symbolic length")
         raise Unsupported("membership test on %r" % type(container).__name__)
+
+
+def _safe2(f, x, y):
+    """entry-wise operation on a symbolic table lookup; entries on which it is undefined (infeasible ones,
+    e.g. the MISSING marker of absent dict keys) stay undefined"""
+    try:
+        return f(x, y)
+    except Exception:
+        return MISSING
 
 
 def _safe_in(t, cont):
